@@ -1,5 +1,7 @@
-import Driver.Util
-/-! `drv_client`: not built yet -/
-def main : IO UInt32 := do
-  IO.eprintln "drv_client: engine not implemented"
-  return 2
+import Driver.ClientDrv
+open Driver
+
+def main (args : List String) : IO UInt32 := do
+  let lines ← readLines (← IO.getStdin) #[]
+  ClientDrv.main lines args
+  return 0
